@@ -591,6 +591,63 @@ def pdf_with_tounicode(cmap, text, clen):
     return pdf_classic(objs)
 
 
+# ------------------------------------------------------------------------------------------
+# known finding C04-objstm-shared-offsets: the index of an object stream names the same offset again and again; every
+# pair parses -- and keeps -- the object that starts there: pairs * |object| bytes from an index of 5 bytes per pair
+# ------------------------------------------------------------------------------------------
+def objstm_shared_offsets_file(npairs=5000, big=300000):
+    idx = b''.join(b'%d 0 ' % (i + 10) for i in range(npairs))
+    plain = idx + b'(' + b'a' * big + b')'
+    data = zlib.compress(plain, 9)
+    objs = [(1, b'<</Type/Catalog/Pages 2 0 R>>'), (2, b'<</Type/Pages/Kids[]/Count 0>>'),
+            (3, b'<</Type/ObjStm/N %d/First %d/Filter/FlateDecode/Length %d>>stream\n' % (npairs, len(idx), len(data)) + data + b'\nendstream')]
+    return pdf_classic(objs)
+
+
+def shared_offsets(index_block):
+    """the class predicate (mirrors KnownSharedOffsets in coq/Model/SafeObjStm.v): the offsets of the index pairs do not
+    strictly increase"""
+    nums = []
+    for t in re.split(rb'[\s\x00]+', index_block):
+        if t:
+            try:
+                nums.append(int(t))
+            except ValueError:
+                nums.append(None)
+    offs = [nums[i + 1] for i in range(0, len(nums) - 1, 2) if nums[i] is not None and nums[i + 1] is not None]
+    return any(b <= a for a, b in zip(offs, offs[1:]))
+
+
+def classify(line, tags, model_out, impl_out, verdict):
+    """known-finding class, decided on the INPUT: C04-objstm-shared-offsets = a file (or an objstm case) with an object stream
+    whose index offsets do not strictly increase"""
+    try:
+        kind = line.split(' ', 2)[1]
+        if kind in ('load', 'incload', 'loadtext'):
+            b = bytes.fromhex(''.join(re.findall(r'x([0-9a-f]+)', line)))
+            for m in re.finditer(rb'<<(?:(?!endobj).)*?/ObjStm(?:(?!endobj).)*?>>\s*stream\r?\n', b, re.S):
+                d = m.group(0)
+                first = re.search(rb'/First\s+(\d+)', d); ln = re.search(rb'/Length\s+(\d+)', d)
+                if not first or not ln:
+                    continue
+                data = b[m.end():m.end() + int(ln.group(1))]
+                if b'FlateDecode' in d:
+                    try:
+                        data = zlib.decompressobj().decompress(data, 1 << 26)
+                    except zlib.error:
+                        continue
+                if shared_offsets(data[:int(first.group(1))]):
+                    return 'C04-objstm-shared-offsets'
+        elif kind == 'objstm':
+            first = re.search(r'\(x4669727374 \(i (\d+)\)\)', line)
+            content = bytes.fromhex(''.join(re.findall(r'x([0-9a-f]+)', line.split('))) ', 1)[-1])))
+            if first and shared_offsets(content[:int(first.group(1))]):
+                return 'C04-objstm-shared-offsets'
+    except Exception:
+        return None
+    return None
+
+
 def gen_cases(rng, tier):
     q = tier == 'quick'
     cases = []
@@ -679,6 +736,8 @@ def gen_cases(rng, tier):
             add(case('loadtext', XB(pdf_with_tounicode(cm, text, clen))), 'loadtext-arrayfamily')
     for k, line in nesting_boundary():
         add(line, k + '-nestboundary')
+    add(case('load', XB(objstm_shared_offsets_file(1000, 100000))), 'load-objstm-shared')       # 100 MB: below the cap
+    add(case('load', XB(objstm_shared_offsets_file())), 'load-objstm-shared')                     # 1.5 GB: the known finding
     # adversarial whole files
     n = 3000 if q else 20000
     chain = [(i, b'<</Length %d 0 R>>stream\nx\nendstream' % (i + 1)) for i in range(1, n + 1)] + [(n + 1, b'1')]
@@ -718,11 +777,12 @@ SPEC = {
     'bin': 'c04',
     'gen_cases': gen_cases,
     'compare': compare,
+    'classify': classify,
     'rule': 'per entry point grammar-directed inputs (ASCII85 alphabets and group edges; predictor geometry and decode_frame with every '
             'numeric extreme; content streams with operands nested 1..20000 deep, inline images with W/H/BPC extremes; object streams '
             'with N/First/index extremes and deep members; cross-reference streams with W/Index/Size extremes; text strings with marks, '
             'odd lengths, lone surrogates; ToUnicode CMaps damaged and with hex-string width extremes; filter chains with damaged data '
-            'and DecodeParms extremes), the recorded defects and their neighbours as directed cases on every run, plus structure-aware mutations (bit, byte, truncation, numeric extremes in every number, token '
+            'and DecodeParms extremes), the recorded defects and their neighbours as directed cases on every run (W arrays of length 2..5 over {0,1,negative} with huge and with many Index pairs; bfrange target arrays exact / one short / one long / empty / after an overlapping definition with text using first and last codes; containers nested at and around the reader\'s limit with 100 string brackets inside), plus structure-aware mutations (bit, byte, truncation, numeric extremes in every number, token '
             'delete/duplicate/swap, splice, inserted nesting, Prev and Length cycles, duplicated chunks, leading junk) of the '
             'repository assets and of documents built here (classic table, indirect Length, xref stream + object stream with and '
             'without predictor, incremental update), all run in an isolated worker with time, stack and memory limits; '
@@ -733,10 +793,19 @@ SPEC = {
         'worker measures the largest single allocation request with a counting GlobalAlloc (cap 1 GiB), runs each case on a 2 MiB '
         'stack and under a 5 s limit',
         'C04: position counters bounded by the length of a Rust slice (at most isize::MAX) are not modelled as overflow sites',
+        'C04: the load theorems are about c01\'s Model/LoaderExt.v, c02\'s Model/Xref.v and Model/ObjStm.v and c14\'s Model/Parser.v (tied to '
+        'the crate by the correspondence checks of C01, C02, C14 and by C04\'s outcome-class check on whole files); Stream::decompress is a '
+        'parameter of those theorems',
+        'C04: the debug-profile stage (thorough tier) builds the harness with cargo\'s dev profile and runs the nesting-boundary family on a '
+        '2 MiB stack; stack use depends on the compiler version',
     ],
     'partial_note': 'the proof covers lopdf\'s own arithmetic, indexing, loop bounds, recursion depth and allocation requests in the modelled '
-                    'entry points; it cannot exhibit panics inside nom, flate2, weezl, encoding_rs, stringprep, rangemap (assumed total), '
-                    'the real stack limit and allocator (approximated by depth/alloc annotations), wall-clock time.',
+                    'entry points, and for Reader::read (on the loader / cross-reference / object-stream / grammar models of C01, C02, C14) '
+                    'the absence of panics and the sufficiency of every fuel; it cannot exhibit panics inside nom, flate2, weezl, encoding_rs, '
+                    'stringprep, rangemap (assumed total), the real stack limit and allocator (approximated by depth/alloc annotations; '
+                    'measured in a release and, for the nesting boundary, a debug worker), wall-clock time; not proved: an allocation bound '
+                    'for the composed loader, the Encrypt branch of read. Open known finding: C04-objstm-shared-offsets (an object stream '
+                    'index that repeats an offset multiplies memory and time: quadratic).',
     'impl_timeout': 2400,
     'model_timeout': 2400,
 }
@@ -796,9 +865,13 @@ MANIFEST = {
                   'a constant depth; the models are tied to the crate by outcome-class correspondence in an isolated worker process '
                   'with time, stack and memory limits over structure-aware mutations of valid files.',
     'level_note': 'the proof covers lopdf\'s own arithmetic, indexing, loop bounds, recursion depth and allocation requests in the modelled '
-                  'entry points; it cannot exhibit panics inside nom, flate2, weezl, encoding_rs, stringprep, rangemap (assumed total), '
-                  'the real stack limit and allocator (approximated by depth/alloc annotations), wall-clock time.',
-    'technique': 'Coq proof (outcome/cost monad, induction over loops and fuel, lia per panic site) + outcome-class correspondence with an '
-                 'isolated worker process (timeout, 2 MiB stack, counting allocator)',
+                  'entry points, and for Reader::read (on the models of C01, C02, C14) the absence of panics and the sufficiency of every '
+                  'fuel; it cannot exhibit panics inside nom, flate2, weezl, encoding_rs, stringprep, rangemap (assumed total), '
+                  'the real stack limit and allocator (approximated by depth/alloc annotations), wall-clock time; not proved: an '
+                  'allocation bound for the composed loader, the Encrypt branch of read. Open known finding: C04-objstm-shared-offsets '
+                  '(an object stream index that repeats an offset multiplies memory and time: quadratic).',
+    'technique': 'Coq proof (outcome/cost monad, induction over loops and fuel, progress lemmas for the grammar, pigeonhole for the Prev loop, '
+                 'lia per panic site) + outcome-class correspondence with an isolated worker process (timeout, 2 MiB stack, counting '
+                 'allocator; release profile, and debug profile for the nesting boundary)',
     'design_ref': 'DESIGN.md 6 C04',
 }
